@@ -9,7 +9,7 @@ import struct
 import traceback
 import typing
 
-from pygopherd import GopherExceptions
+from pygopherd import GopherExceptions, logger
 from pygopherd.protocols import ProtocolMultiplexer
 
 
@@ -48,6 +48,17 @@ class BaseServer(socketserver.BaseServer):
             self.server_port = self.config.getint("pygopherd", "advertisedport")
         else:
             self.server_port = port
+
+    def get_request(self):
+        request, client_address = super().get_request()
+        if self.config.has_option("pygopherd", "timeout"):
+            # SO_RCVTIMEO / SO_SNDTIMEO (see server_bind) only make the
+            # kernel calls return EAGAIN.  For a plain socket a buffered read
+            # then hands back whatever part of the line has arrived as if it
+            # was the whole line, and the ssl module simply tries again, for
+            # ever.  A timeout of the socket object itself raises.
+            request.settimeout(self.config.getint("pygopherd", "timeout"))
+        return request, client_address
 
     def wrap_socket(self, sock: socket.SocketType) -> socket.SocketType:
         """
@@ -119,11 +130,20 @@ class GopherRequestHandler(socketserver.StreamRequestHandler):
     server: BaseServer
 
     def handle(self) -> None:
-        request = self.rfile.readline().decode(errors="surrogateescape")
+        try:
+            request = self.rfile.readline().decode(errors="surrogateescape")
 
-        protohandler = ProtocolMultiplexer.getProtocol(
-            request, self.server, self, self.rfile, self.wfile, self.server.config
-        )
+            protohandler = ProtocolMultiplexer.getProtocol(
+                request, self.server, self, self.rfile, self.wfile, self.server.config
+            )
+        except OSError as e:
+            # The client stalled or went away before its request was complete:
+            # there is no request to answer.
+            logger.log(
+                "%s [None/None] EXCEPTION %s: %s"
+                % (self.client_address[0], type(e).__name__, e)
+            )
+            return
         try:
             protohandler.handle()
         except IOError as e:
